@@ -117,6 +117,16 @@ Theorem C17_fixed_laws : forall (T : Type) (O : ops T) (a b : msg (T := T)) (j k
   /\ b_sum O (b_pow O a j) [b_pow O a k] = b_pow O a (oadd O j k) /\ b_sum O a [b_zeros O a] = a.
 Proof. exact @fixed_laws. Qed.
 
+(* ... except division by a real number in the code as it is (py2 name __div__): refuted; identity with the
+   proposed `__truediv__ = _no_op` *)
+Theorem C17_fixed_sdiv_refuted : exists (a : qmsg) (c : Q), fam a = FFixed /\
+  b_sdiv Qops pinned (b_smul Qops a c) c <> a /\ b_sdiv Qops applied3 (b_smul Qops a c) c <> a.
+Proof. exact fixed_sdiv_refuted. Qed.
+
+Theorem C17_fixed_sdiv_repaired : forall (T : Type) (O : ops T) (V : variant) (a : msg (T := T)) (c : T),
+  fam a = FFixed -> fixed_truediv_noop V = true -> b_sdiv O V a c = a /\ b_sdiv O V (b_smul O a c) c = a.
+Proof. exact @fixed_sdiv. Qed.
+
 (* ===== whole expression trees: what arithmetic can never change ===== *)
 Theorem C17_wrapper_preserved : forall (T : Type) (O : ops T) (V : variant) (env : list (mval (T := T))) (e : expr (T := T)) v,
   eval O V env e = Some v ->
